@@ -32,8 +32,10 @@ VARIABLES l, pre, cur, ev,
           nomKind,    \* history: per agent, {<<l, r, v>>} = value (0 = plain USE-CANDIDATE) of the last nominating request received on pair (l, r)
           ledger,     \* history: per agent, the harness's own record of outstanding requests {<<tid, dst, at, gen>>}
           pled,       \* ledger before the last step
-          base        \* history: per agent, [key, tally, cnt] = selected pair (l,r), harness tallies and that pair's counters when it became selected
-vars == <<l, pre, cur, ev, idmap, answered, ucAnswered, nomRx, chk, ltc, acc, acked, iss, base, ledger, pled, nomKind, nomTids, nomLost>>
+          base,       \* history: per agent, [key, tally, cnt] = selected pair (l,r), harness tallies and that pair's counters when it became selected
+          tickTx,     \* history: per agent, {<<gen, l, r, tid>>} = the requests it sent from its own timer (ordinary checks; a triggered check is sent while a datagram is handled)
+          txOK        \* history: per agent, transaction ids of its requests whose success response reached it (signed, from the address asked, within the lifetime)
+vars == <<l, pre, cur, ev, idmap, answered, ucAnswered, nomRx, chk, ltc, acc, acked, iss, base, ledger, pled, nomKind, nomTids, nomLost, tickTx, txOK>>
 
 E0 == [a \in Agents |-> {}]
 CountIn(s, x) == Cardinality({k \in 1..Len(s) : s[k] = x})
@@ -54,7 +56,7 @@ Init == /\ l = 2 /\ pre = Tr[1].post /\ cur = Tr[1].post /\ ev = Tr[1]
         /\ answered = E0 /\ ucAnswered = E0 /\ nomRx = E0
         /\ chk = [a \in Agents |-> 0 - 1] /\ ltc = [a \in Agents |-> "Unknown"]
         /\ acc = [a \in Agents |-> NoNom] /\ acked = [a \in Agents |-> 0] /\ iss = NoNom
-        /\ ledger = E0 /\ pled = E0 /\ nomKind = E0 /\ nomTids = {} /\ nomLost = FALSE
+        /\ ledger = E0 /\ pled = E0 /\ nomKind = E0 /\ nomTids = {} /\ nomLost = FALSE /\ tickTx = E0 /\ txOK = E0
         /\ base = [a \in Agents |-> [key |-> <<>>, tally |-> <<0, 0, 0, 0>>, cnt |-> <<0, 0, 0, 0>>]]
 Step == /\ l <= Len(Tr) /\ l' = l + 1 /\ pre' = cur /\ cur' = Tr[l].post /\ ev' = Tr[l]
         /\ LET e == Tr[l]  reset == e.ev = "Reset" IN
@@ -100,6 +102,17 @@ Step == /\ l <= Len(Tr) /\ l' = l + 1 /\ pre' = cur /\ cur' = Tr[l].post /\ ev' 
            /\ nomLost' = IF reset THEN FALSE
                          ELSE nomLost \/ (e.ev = "Drop" /\ ((e.m.kind = "req" /\ e.m.nom # 0) \/ (e.m.kind = "succ" /\ e.m.tid \in nomTids)))
            /\ pled' = ledger
+           /\ tickTx' = [a \in Agents |->
+                 IF reset THEN {}
+                 ELSE IF e.ev = "Tick" /\ e.ag = a
+                      THEN tickTx[a] \cup {<<e.post[a].gen, Unwire(y.src), y.dst, y.tid>> : y \in {z \in NewMsgs(e, cur) : z.kind = "req" /\ z.from = a}}
+                 ELSE tickTx[a]]
+           /\ txOK' = [a \in Agents |->
+                 IF reset THEN {}
+                 ELSE IF IsDeliverOf(e) /\ RcvOf(e) = a /\ e.m.kind = "succ" /\ SocketOpenOf(e, cur) /\ RespAuthOKOf(e, cur) /\ KnownIn(cur, a, e.m.src)
+                         /\ \E x \in ledger[a] : x[1] = e.m.tid /\ x[2] = e.m.src /\ x[4] = cur[a].gen /\ e.post.now - x[3] < H
+                      THEN txOK[a] \cup {e.m.tid}
+                 ELSE txOK[a]]
            /\ ledger' = [a \in Agents |->
                  IF reset \/ (e.ev = "Restart" /\ e.ag = a) \/ (e.post[a].conn = "Failed" /\ cur[a].conn # "Failed") THEN {}
                  ELSE LET sent == {<<x.tid, x.dst, e.post.now, cur[a].gen>> : x \in {y \in NewMsgs(e, cur) : y.kind = "req" /\ y.from = a /\ e.ev # "Dup"}}
@@ -149,10 +162,17 @@ C01_Mirror == (ev.ev = "DrainEnd" /\ cur["A"].sel # 0 /\ cur["B"].sel # 0 /\ InS
 \* can still send a check of its own on it
 Usable(o, a, lc, rm) == ~\E p \in Rng(o[a].pairs) : p.l = lc /\ p.r = rm /\
                            (p.st = "F" \/ ((o[a].role = "controlling" \/ o["A"].role = o["B"].role) /\ p.st = "I" /\ p.reqs > MaxReq))
+\* the same clause counted on the wire: of the ordinary checks the agent sent on the pair in this generation, fewer than the
+\* whole budget (1 + MaxReq) went unanswered by the end of the suffix - whatever the agent's own counters and pair states say
+\* (a check the peer triggered is not the agent's timer; an answer that arrives late still is an answer)
+WithinBudget(a, lc, rm) ==
+  Cardinality({x \in tickTx[a] : x[1] = cur[a].gen /\ x[2] = lc /\ x[3] = rm /\ x[4] \notin txOK[a]}) <= MaxReq
 CanConverge(o) ==
   /\ \A a \in Agents : o[a].conn \in {"Checking", "Connected", "Disconnected"}
   /\ \E la \in LocalsA : \E lb \in LocB :
-       BothWays(la, lb) /\ Usable(o, "A", la, NatMap[lb]) /\ Usable(o, "B", lb, NatMap[la])
+       /\ BothWays(la, lb)
+       /\ Usable(o, "A", la, NatMap[lb]) \/ WithinBudget("A", la, NatMap[lb])
+       /\ Usable(o, "B", lb, NatMap[la]) \/ WithinBudget("B", lb, NatMap[la])
 C01_Converges == (ev.ev = "DrainEnd" /\ CanConverge(ev.pre)) =>
                     \A a \in Agents : cur[a].conn = "Connected" /\ cur[a].sel # 0
 C01_NeverWithoutPath == ~HasPath => \A a \in Agents : cur[a].sel = 0 /\ cur[a].conn \notin {"Connected", "Disconnected"}
